@@ -18,7 +18,7 @@ RULE = ('(A) explicit-state breadth-first search over operation histories: alpha
         'constructions) executed as explicit histories irrespective of state merging. (B) stateless enumeration of all schedules of two '
         'threads under a cooperative line-level scheduler with a preemption bound (1 at every line of the library, 2 at lines that can touch '
         'shared state), six harnesses forced to collide, both thread orders; oracle: each thread\'s result equals its sequential result '
-        'bitwise, I1, I5. distinct_nontrivial = distinct (hidden state, live set) states + distinct schedule outcomes')
+        'bitwise, I1, I5; a free-running pass of the same bodies on untraced threads is reported separately (not deciding); thorough also enumerates all call triples statelessly. distinct_nontrivial = distinct (hidden state, live set) states + distinct schedule outcomes')
 ASSUMPTIONS = ['two histories reaching the same hidden-state digest have the same futures (the digest covers every module-level object, function '
                'attribute, closure cell, mutable default and instance attribute reachable by introspection; state outside Python objects is not seen)',
                'scheduling granularity is the source line inside library frames; interleavings inside one torch kernel are not modelled',
@@ -67,7 +67,13 @@ def plan(tier):
     calls = [op for op in ops if op[0] == 'call']
     for i in range(0, len(calls)):
         items.append({'kind': 'pairs', 'first': calls[i], 'seconds': calls, 'ref': ref})
+    if tier == 'thorough':
+        # stateless enumeration of all call triples (with their constructions): independent of the state merge
+        for a in calls:
+            for b0 in range(0, len(calls), 9):
+                items.append({'kind': 'triples', 'first': a, 'seconds': calls[b0:b0 + 9], 'thirds': calls, 'ref': ref})
     for h in HARNESSES:
+        items.append({'kind': 'free', 'harness': h, 'runs': 20 if tier == 'quick' else 100})
         for order in (0, 1):
             items.append({'kind': 'sched', 'harness': h, 'order': order, 'bound': 1 if tier == 'quick' else 2, 'only_visible': False, 'part': [1, 0]})
             nparts = 4 if tier == 'quick' else 8
@@ -78,7 +84,7 @@ def plan(tier):
 
 def required_regimes(tier):
     return {'hist:construct', 'hist:call', 'hist:load', 'hist:state_changed_by_construct', 'pairs', 'sched:every_line', 'sched:visible',
-            'sched:preempted', 'gradmode:grad', 'gradmode:nograd'}
+            'sched:preempted', 'sched:free_running', 'gradmode:grad', 'gradmode:nograd'} | ({'triples'} if tier == 'thorough' else set())
 
 
 _SNAP = None
@@ -230,6 +236,62 @@ def _run_pairs(item, res):
     _snap().reset()
 
 
+def _run_triples(item, res):
+    ref = item['ref']
+    a = item['first']
+    for b in item['seconds']:
+        for c in item['thirds']:
+            need = []
+            for op in (a, b, c):
+                if ['construct', op[1]] not in need:
+                    need.append(['construct', op[1]])
+            hist = need + [a, b]
+            env = _replay(hist, ref, res)
+            _step(env, c, ref, res, hist, ['triples'])
+        res['ophashes'].append(hidden._digest(repr([a, b]).encode()))
+    res.regime('triples')
+    res.state('triples', _key(a), _key(item['seconds'][0]))
+    _snap().reset()
+
+
+def _run_free(item, res):
+    """Free-running pass (not the deciding step): the harness bodies on real, untraced threads, started together."""
+    import threading
+    setup = _harness(item['harness'])
+    seq = []
+    for t in (0, 1):
+        env, bodies = setup()
+        seq.append(bodies[t]())
+    bad = 0
+    for k in range(item['runs']):
+        env, bodies = setup()
+        out = [None, None]
+        bar = threading.Barrier(2)
+
+        def work(i):
+            bar.wait()
+            try:
+                out[i] = bodies[i]()
+            except Exception as e:       # noqa
+                out[i] = {'error': repr(e)[:200]}
+        ths = [threading.Thread(target=work, args=(i,)) for i in (0, 1)]
+        for th in ths:
+            th.start()
+        for th in ths:
+            th.join()
+        res['evals'] += 1
+        res['impl_calls'] += 2
+        if out[0] != seq[0] or out[1] != seq[1]:
+            bad += 1
+    res.regime('sched:free_running')
+    res.state('free', item['harness'])
+    res['ophashes'].append(hidden._digest(repr(('free', item['harness'], bad)).encode()))
+    res['extra']['free_running_executions'] = item['runs']
+    if bad:
+        res.violation('schedule_purity', {'harness': item['harness'], 'free_running': True}, {'kind': 'result_differs_from_sequential', 'runs': item['runs'], 'bad': bad}, [])
+    _snap().reset()
+
+
 # ---- schedules ------------------------------------------------------------------------------------------------------------
 
 def _harness(name):
@@ -350,6 +412,10 @@ def run(item):
         _run_hist(item, res)
     elif item['kind'] == 'pairs':
         _run_pairs(item, res)
+    elif item['kind'] == 'triples':
+        _run_triples(item, res)
+    elif item['kind'] == 'free':
+        _run_free(item, res)
     else:
         _run_sched(item, res)
     return res
